@@ -67,7 +67,7 @@ CLAIMED = {
    technique="deterministic simulation: seeded operation histories vs executable reference model"),
  "C06": dict(level="fault_enumeration", ref="DESIGN §5 C06",
    text="Byzantine prover at witness-generation depth: the permutation closure deviates on one call in its non-exposed (capacity) or exposed (rate) output lanes, or a decomposition hint deviates, or (hook H3) one limb of the private, not witness-fed part of a permutation's input state (zero padding, chained rate / capacity) is altered; the rest of the run is honest, the forged traces go through the real prover and verifier; an accepted proof whose sampled challenges differ from the native transcript is a violation. A fault-free control arm runs first.",
-   note="U-KB4/U-BB4 extension-degree challenger and the base-field (D=1) challenger inside the KoalaBear quintic circuit, with Poseidon2 and recompose tables; every sampled wire is read by an ALU row so that its run-time value is a committed cell. Known findings (capacity deviation accepted in D=4; sample_ext unbound in the quintic configuration) are listed in known_findings.json.",
+   note="U-KB4/U-BB4 extension-degree challenger and the base-field (D=1) challenger inside the KoalaBear quintic circuit, with Poseidon2 and recompose tables; every sampled wire is read by an ALU row so that its run-time value is a committed cell. Known findings (capacity deviation accepted in D=4) are listed in known_findings.json.",
    technique="deterministic simulation with a byzantine prover (deviating permutation / hints), real prove + verify"),
  "C12": dict(level="fault_enumeration", ref="DESIGN §5 C12",
    text="Byzantine hint executors: binary decomposition emitting the bits of x + p, extension decomposition moving mass between coefficients, inside gadget circuits and challenger histories; forged traces are proven and verified; an accepted proof with a non-canonical decomposition is a violation.",
